@@ -75,6 +75,22 @@ TamperClasses(tr) ==
 Authorised(us) == us \in {"bypass", "admin", "dbok"}
 Caches == {"none", "idle", "busy"}
 
+\* ---- server configuration.  Who is authorised without a database is exactly the configured set: the BypassUID
+\* entries and, if one is configured, the AdminUID.  conf = [admin: an AdminUID is configured, nb: number of BypassUID
+\* entries]; probe = which UID the first packet names ("std" = the user of env.ustate on the standard configuration).
+Confs   == [admin : BOOLEAN, nb : {0, 1, 3}]
+StdConf == [admin |-> TRUE, nb |-> 1]
+Probes  == {"zero",      \* 16 zero bytes (what an absent / empty UID pads to)
+            "ones",      \* 16 bytes 0xff
+            "bypass",    \* a configured bypass UID
+            "admin",     \* the configured admin UID
+            "variant",   \* a bypass UID truncated and padded / shifted by one byte
+            "random"}    \* an unlisted UID
+ProbeExists(cf, pr) == ((pr \in {"bypass", "variant"}) => cf.nb > 0) /\ (pr = "admin" => cf.admin)
+ProbeState(cf, pr)  == IF pr = "bypass" THEN "bypass" ELSE IF pr = "admin" THEN "admin" ELSE "unknown"
+ConfEnvs == {[ustate |-> ProbeState(x[1], x[2]), off |-> 0, rightKey |-> TRUE, cache |-> "none", conf |-> x[1], probe |-> x[2]] :
+               x \in {y \in Confs \X Probes : ProbeExists(y[1], y[2])}}
+
 -----------------------------------------------------------------------------
 \* ------------------------------------------------------------ symbolic crypto
 Pub(k)        == [pubof |-> k]
@@ -146,8 +162,20 @@ OpenHello(p, choice) ==
         THEN [ok |-> TRUE, pt |-> p.f1.blk.pt]
         ELSE [ok |-> FALSE, pt |-> p.f1.blk.pt]
 
+\* ---- time.  1 tick = tolerance / 2 = 90 s; the server clock is 0, the sealed stamp is env.off ticks.  Besides the
+\* offsets around both window edges the stamp may be arbitrarily far away (the 8 wire bytes carry any int64 number of
+\* seconds and the server clock is whatever it is): exact integer distances in ticks, a year = 365.25 days.
+\* Big stands for every distance beyond 584 years (stamps such as MaxInt64 / MinInt64 seconds).
+Day  == 960
+Year == 350640
+Big  == 2000000000
+FarMags == {Day, Year, 100 * Year, 292 * Year, 293 * Year, 300 * Year, 584 * Year, Big}
+FarOffsets == FarMags \cup {0 - m : m \in FarMags}
+SatTicks == 102481911    \* 2^63 ns: where a 64-bit nanosecond difference saturates (292.47 years)
+
 InWindow(d) ==
   IF "NoTimestampCheck" \in Dev THEN TRUE
+  ELSE IF "SkewSubSaturates" \in Dev /\ d > SatTicks THEN TRUE    \* |now - stamp| computed in saturating int64 ns
   ELSE IF "WindowInclusive" \in Dev THEN d >= -W /\ d <= W
   ELSE d > -W /\ d < W
 
@@ -170,7 +198,8 @@ Outcome(p, choice) ==
   ELSE IF ~InWindow(o.pt.ts) THEN Redirect
   ELSE
     LET info  == Decode(o.pt)
-        us    == env.ustate                                    \* info.uid can only be cfg.uid (sealed)
+        us    == IF "ZeroUidBypassNoAdmin" \in Dev /\ env.probe = "zero" /\ ~env.conf.admin
+                   THEN "bypass" ELSE env.ustate                \* info.uid can only be cfg.uid (sealed)
         reply == [present |-> TRUE, blk |-> Seal(ServerSecret(p), "rn", "K")]
         admin == us = "admin" /\ (info.sid = "zero" \/ "AdminNoSid" \in Dev)
     IN IF admin THEN [verdict |-> "admin", info |-> info, key |-> "K", reply |-> reply]
@@ -201,7 +230,7 @@ Configs ==
   IF Scope = "agree"
     THEN [uid : {"u1", "u2"}, mlen : MLens, served : {TRUE}, enc : Encs, sid : Sids, unord : BOOLEAN,
           sig : Sigs, tr : Transports, sni : Snis]
-  ELSE IF Scope = "sound"
+  ELSE IF Scope \in {"sound", "neg7"}   \* neg7 = the vacuity space of the C07 flags: small configurations
     THEN [uid : {"u1"}, mlen : {11}, served : BOOLEAN, enc : {"aes256gcm"}, sid : {"zero", "mid"},
           unord : {FALSE}, sig : {"chrome"}, tr : Transports, sni : {"fixed"}]
   ELSE [uid : {"u1"}, mlen : {11, 12}, served : BOOLEAN, enc : {"aes256gcm"}, sid : {"zero", "mid"},
@@ -209,12 +238,17 @@ Configs ==
 
 Envs ==
   IF Scope = "agree"
-    THEN [ustate : {"bypass", "dbok", "admin"}, off : Offsets, rightKey : {TRUE}, cache : {"none"}]
+    THEN [ustate : {"bypass", "dbok", "admin"}, off : Offsets, rightKey : {TRUE}, cache : {"none"}, conf : {StdConf}, probe : {"std"}]
   ELSE IF Scope = "sound"
-    THEN [ustate : UStates, off : Offsets, rightKey : BOOLEAN, cache : {"none"}]
-         \cup [ustate : {"dbok", "nocredit", "expired", "unknown"}, off : {0}, rightKey : {TRUE}, cache : {"idle", "busy"}]
-  ELSE [ustate : {"bypass", "admin", "unknown"}, off : {0, W, W + 1}, rightKey : BOOLEAN, cache : {"none"}]
-       \cup [ustate : {"unknown"}, off : {0}, rightKey : {TRUE}, cache : {"idle"}]
+    THEN [ustate : UStates, off : Offsets, rightKey : BOOLEAN, cache : {"none"}, conf : {StdConf}, probe : {"std"}]
+         \cup [ustate : {"dbok", "nocredit", "expired", "unknown"}, off : {0}, rightKey : {TRUE}, cache : {"idle", "busy"},
+                conf : {StdConf}, probe : {"std"}]
+         \cup [ustate : {"bypass", "dbok", "admin"}, off : FarOffsets, rightKey : {TRUE}, cache : {"none"}, conf : {StdConf}, probe : {"std"}]
+         \cup ConfEnvs
+  ELSE [ustate : {"bypass", "admin", "unknown"}, off : {0, W, W + 1, 293 * Year}, rightKey : BOOLEAN, cache : {"none"},
+        conf : {StdConf}, probe : {"std"}]
+       \cup [ustate : {"unknown"}, off : {0}, rightKey : {TRUE}, cache : {"idle"}, conf : {StdConf}, probe : {"std"}]
+       \cup {e \in ConfEnvs : e.probe = "zero"}
 
 Compatible(c, e) ==
   Scope = "agree" =>
@@ -243,8 +277,9 @@ Tamper(c) ==
   /\ phase = "wire"
   /\ Cardinality(tampers) < MaxTamper
   /\ c \in TamperClasses(cfg.tr) \ tampers
-  /\ env.cache = "none"                       \* histories are explored on untouched packets
-  /\ (Scope = "neg" => c = "loworder")        \* the vacuity space needs this one class only
+  /\ env.cache = "none" /\ env.probe = "std"   \* histories, configurations and far-away stamps are explored
+  /\ env.off \in (0 - W - 1)..(W + 1)          \* on untouched packets
+  /\ (Scope \in {"neg", "neg7"} => c = "loworder")        \* the vacuity space needs this one class only
   /\ pkt' = Apply(pkt, c)
   /\ tampers' = tampers \cup {c}
   /\ UNCHANGED <<phase, cfg, env, srv, cli, dev>>
@@ -318,6 +353,7 @@ TypeOK ==
   /\ phase \in {"start", "wire", "decided", "done"}
   /\ tampers \subseteq {"randsig", "nonce", "bit255", "blockA", "blockB", "len", "b64", "other", "loworder"}
   /\ env.cache \in Caches
+  /\ env.conf \in Confs /\ env.probe \in Probes \cup {"std"}
   /\ Cardinality(tampers) <= MaxTamper
   /\ srv.verdict \in {"accept", "admin", "redirect"}
   /\ cli.ok \in BOOLEAN
